@@ -57,7 +57,7 @@ def gen_attr(ch, cfg):
     op = ch.pick(OPS)
     flag = None
     if op and ch.p(0.3):
-        flag = ch.pick(('i', 's'))
+        flag = ch.pick(('i', 's', 'i', 's', 'I', 'S'))
     return {'ns': gen_nsprefix(ch, cfg) if ch.p(0.3) else None, 'name': ch.pick(ATTR_NAMES), 'op': op,
             'val': ch.pick(ATTR_VALUES) if op else '', 'flag': flag}
 
